@@ -395,9 +395,92 @@ def check_run_schedule(case):
                                                       "store" if case["store"] else "dummy"]}
 
 
+# ---------------------------------------------------------------- a design that cannot be evaluated
+
+class ModelCrashed(Exception):
+    pass
+
+
+@st.composite
+def fatal_cases(draw):
+    b = draw(st.integers(2, 7))
+    return {"b": b, "workers": draw(st.integers(2, 4)), "bad": draw(st.integers(0, b - 1)),
+            "kind": draw(st.sampled_from(["other", "other", "exhaust"])), "store": draw(st.booleans()),
+            "seed": draw(st.integers(0, 2 ** 31))}
+
+
+def check_fatal(case):
+    """one design of the batch raises a non-transient exception (or fails five times in a row): serial evaluation hands
+    that failure to the caller, and so must evaluation with worker threads under whatever schedule the OS produces -
+    a batch must never come back looking finished while a design silently has no result"""
+    from artap.individual import Individual
+    from artap.algorithm import DummyAlgorithm
+    from artap.datastore import SqliteDataStore
+    b, bad = case["b"], case["bad"]
+
+    def run(parallel):
+        lock = threading.Lock()
+        calls = {}
+
+        def ev(ind):
+            tag = ind.custom["tag"]
+            with lock:
+                calls[tag] = calls.get(tag, 0) + 1
+            if tag == bad:
+                if case["kind"] == "other":
+                    raise ModelCrashed("the model cannot be evaluated for this design")
+                raise RuntimeError("injected failure (every attempt)")
+            return _f(ind.vector)
+        ps = [{"name": "a", "bounds": [0.0, 2.0]}, {"name": "b", "bounds": [0.0, 2.0]}]
+        cs = [{"name": "f0", "criteria": "minimize"}, {"name": "f1", "criteria": "maximize"}]
+        prob = make_problem(ps, cs, ev)
+        seed_all(case["seed"])
+        try:
+            if case["store"]:
+                prob.data_store = SqliteDataStore(prob, database_name=os.path.join(prob.working_dir, "c07f.sqlite"))
+            alg = DummyAlgorithm(prob)
+            if parallel:
+                alg.options["max_processes"] = case["workers"]
+            inds = []
+            for tag, v in enumerate(_vectors(b)):
+                ind = Individual(list(v))
+                ind.custom["tag"] = tag
+                inds.append(ind)
+            exc = None
+            try:
+                with guard("fatal", allowed=(ModelCrashed, RuntimeError)):
+                    alg.evaluate(inds)
+            except (ModelCrashed, RuntimeError) as e:
+                exc = e
+            return exc, [(str(i.state), [float(c) for c in i.costs], [float(x) for x in i.vector]) for i in inds], dict(calls)
+        finally:
+            dispose(prob)
+
+    se, _, _ = run(False)
+    want = ModelCrashed if case["kind"] == "other" else RuntimeError
+    if not isinstance(se, want):
+        raise HarnessError("serial evaluation did not raise %s: %r" % (want.__name__, se))
+    pe, recs, calls = run(True)
+    if pe is None:
+        raise Violation("fatal", "failure-swallowed:%s" % case["kind"], "batch of %d on %d workers: design %d %s; serial "
+                        "evaluation raises %s, the parallel one returned normally with states %r" % (
+                            b, case["workers"], bad, "raises a non-transient exception" if case["kind"] == "other"
+                            else "fails at every attempt", want.__name__, [r[0] for r in recs]))
+    if not isinstance(pe, want):
+        raise Violation("fatal", "other-exception:%s" % case["kind"], "parallel evaluation raised %r, serial %r" % (pe, se))
+    for t, (state, costs, vec) in enumerate(recs):
+        if t == bad:
+            if "EVALUATED" in state:
+                raise Violation("fatal", "bad-design-evaluated", "the failing design is marked evaluated")
+        elif "EVALUATED" in state and costs != _f(vec):
+            raise Violation("fatal", "costs-not-of-vector", "design %d: costs %r for vector %r" % (t, costs, vec))
+    return {"nt": True, "classes": [case["kind"], "workers%d" % case["workers"], "store" if case["store"] else "dummy"]}
+
+
 CLAUSES = [
     Clause("schedule", schedules(), check_schedule, quick=400, thorough=3000, quick_shards=4),
     Clause("run-schedule", run_schedules(), check_run_schedule, quick=80, thorough=600, quick_shards=4),
+    Clause("fatal", fatal_cases(), check_fatal, quick=60, thorough=600, quick_shards=2),
 ]
 ENUMS = [
     Enum("all-schedules", subtree_items, check_subtree, tiers=("quick", "thorough"), chunk=1,
